@@ -78,6 +78,9 @@ def run(tier, seed):
         jobs += [(z, slice_q, 12, True) for z in zsel] + [(z, slice_q, 23, False) for z in zsel]
     else:
         jobs += [(z, [(2000, 2038), (2005, 2012)], 12, False) for z in zsel[::3]]
+    # intervals whose multiples straddle close pairs of cancelling transitions (e.g. 6.96 days apart in Oct 2000): every zone
+    for iv in (34, 40, 43, 56):
+        jobs += [(z, [(2000, 2038)] if not thorough else [(2000, 2038), (2001, 2012)], iv, False) for z in zones]
     # intervals of a day and more (the arithmetic on the window width changes character at 24 h)
     for iv in (24, 30, 48, 72):
         jobs += [(z, [(2000, 2038), (2007, 2011)], iv, iv == 30) for z in (zsel if thorough else sorted(set(zsel[1::3]) | set(special)))]
@@ -115,7 +118,7 @@ def run(tier, seed):
     rep.coverage.update(cov)
     rep.assumptions += ['completeness oracle = the library\'s own transition table (pytz: _utc_transition_times/_transition_info; dateutil: tzfile _trans_list_utc/_trans_idx), bounded by the installed versions (pytz %s)' % pytz.__version__,
                         'a transition with another transition closer than the sampling interval cannot be found by interval sampling by construction; such transitions are counted as not claimed',
-                        'ranges: %s; sampling intervals 22 h (default) plus slices at 12, 23, 24, 30, 48 and 72 h' % ('all 741 (start, until) pairs within 2000..2038' if thorough else 'all until-years with start=2000 and all start-years with until=2038'),
+                        'ranges: %s; sampling intervals 22 h (default) plus slices at 12, 23, 24, 30, 34, 40, 43, 48, 56 and 72 h' % ('all 741 (start, until) pairs within 2000..2038' if thorough else 'all until-years with start=2000 and all start-years with until=2038'),
                         'dateutil (much slower): every 4th zone x both axes in the thorough tier; quick tier: every 8th pytz zone (seed-rotated) + 6 zones with year-end / unusual transitions (these with all 741 ranges); every 16th zone for dateutil',
                         'rendering is lossless for minute-aligned offsets only (all of 2000..2037); other items are counted']
     return rep.finish(exhaustive=thorough, extra={'evaluations': cov['items_checked'] + cov['rendered_items'], 'distinct_nontrivial': cov['transitions_required'],
